@@ -102,6 +102,10 @@ def write_file(d, name, data):
         f.write(data)
 
 
+def list_files(d):
+    return sorted(os.listdir(d))
+
+
 def read_file(d, name):
     try:
         with open(os.path.join(d, name), "rb") as f:
